@@ -1,26 +1,754 @@
-//! C17 - not built yet.
-use crate::engine::{PropertyInfo, RunCtx};
+//! C17 - the debugger is transparent and never wedges the runtime.
+//!
+//! Programs: `stgen` (strict dial; nested FUNCTION / FUNCTION_BLOCK calls, loops) wrapped by
+//! `c17/world.rs` into 1-3 program instances over 0-3 tasks. Scripts: set/clear breakpoints
+//! at statement locations, pause(thread?), continue, step in/over/out(thread?), optionally
+//! user writes queued through the debugger.
+//!
+//! Two drivers (`c17/driver.rs`):
+//! * lock-step: commands are issued only before the cycle thread starts and in reaction to
+//!   a stop notification, so the run is deterministic and every stop is predicted exactly
+//!   from the reference evaluator's executed-statement trace;
+//! * racy: a second thread fires commands at generated points in real time, each script is
+//!   repeated 50-200 times; only schedule-independent facts are asserted.
+
+use std::collections::BTreeMap;
+use std::sync::atomic::{AtomicBool, AtomicU64, Ordering};
+use std::sync::Mutex;
+
+use proptest::prelude::*;
+use proptest::strategy::ValueTree;
+use serde::{Deserialize, Serialize};
+use serde_json::json;
+
+use crate::engine::tape::{tape_strategy, Reader, Tape};
+use crate::engine::{Probe, PropertyInfo, RunCtx};
+use crate::stgen::ast::*;
+use crate::stgen::{generate, GenConfig};
+
+#[path = "c17/driver.rs"]
+mod driver;
+#[path = "c17/script.rs"]
+mod script;
+#[path = "c17/world.rs"]
+mod world;
+
+use driver::{Outcome, RacyOutcome, RacyStats, UserWrite};
+use script::{BpEdit, LockScript, RacyScript, Resume};
+use world::{Prep, TaskCfg, World};
 
 pub fn info() -> PropertyInfo {
     PropertyInfo {
         id: "C17",
         level: "exploration",
-        rule: "not built yet",
-        assumptions: &[],
-        workers_quick: 1,
-        workers_thorough: 1,
+        rule: "cases = stgen programs (strict dial, <= 18 statements per POU, nested FUNCTION/FB calls, FOR/WHILE/REPEAT) instantiated 1-3 times over 0-3 tasks + background, 1-3 input cycles repeated 1-6 times, x command scripts over {set/clear breakpoints at statement locations, pause(thread?), continue, step in/over/out(thread?), user writes}; lock-step search: commands only before the start and in reaction to a stop notification, every stop predicted from the reference statement trace; racy search: a second thread fires commands at generated real-time points, 50-200 repetitions per script; non-trivial = lock-step script with >= 1 step command issued at call depth >= 1, or racy script in which a pause stop and a breakpoint stop occurred in one repetition or a pause overtook a resume; distinct by SHA-256 of (source, script)",
+        assumptions: &[
+            "stepping is per debugger thread (task): 'the very next statement' after step-in and the depth clause of step-over/step-out refer to the statements of the stepped thread (DAP thread model; what the hook implements with target_thread)",
+            "step-over stops at the first later statement of the stepped thread at call depth <= d, step-out at depth <= d-1 (d > 0) or <= 0 (d = 0), unless a breakpoint stop comes first (StepKind documentation in debug/control.rs); the property's own clause (never deeper than d) is reported separately",
+            "a statement 'carries a breakpoint' when its source range overlaps the breakpoint's range (breakpoints.rs: overlap matching; a breakpoint on a nested statement also stops at the enclosing IF/CASE/loop statement); empty statements have no hook call",
+            "a user write queued while stopped in cycle k must have exactly the effect of the same whole-variable write applied between cycle k and k+1 of an undebugged run (documented contract of DebugControl::enqueue_*_write)",
+            "no-wedge is judged by progress: a run counts as wedged when, while the controller waits for the next stop notification or the end of the run, the progress token (cycles completed, last statement location and call depth seen by the hook) does not move and the cycle thread is blocked (state S in /proc) at 150 consecutive samples 100 ms apart, or - last resort - the token does not move for 180 s (normal: < 5 ms); wedged twice in a row for one script = violation, once = inconclusive",
+            "racy search: the OS scheduler chooses the interleaving; spin/yield/sleep delays perturb it but do not control it",
+        ],
+        workers_quick: 8,
+        workers_thorough: 16,
         address_space_limit: 0,
-        watchdog_quick_s: 600,
-        watchdog_thorough_s: 3600,
+        watchdog_quick_s: 1800,
+        watchdog_thorough_s: 7200,
         run,
     }
 }
 
+#[derive(Clone, Debug, Serialize, Deserialize)]
+pub struct Case {
+    pub prog_tape: Tape,
+    pub trace_tape: Tape,
+    pub script_tape: Tape,
+    /// "lock" | "racy"
+    pub mode: String,
+    #[serde(default)]
+    pub program: Option<Program>,
+    #[serde(default)]
+    pub trace: Option<Trace>,
+    #[serde(default)]
+    pub cfg: Option<TaskCfg>,
+    #[serde(default)]
+    pub lock: Option<LockScript>,
+    #[serde(default)]
+    pub racy: Option<RacyScript>,
+    /// Printed (wrapped) source, informational.
+    #[serde(default)]
+    pub source: String,
+    /// Set in hand-kept replay files.
+    #[serde(default)]
+    pub replay: bool,
+}
+
+fn gen_config() -> GenConfig {
+    let mut c = GenConfig::strict_core();
+    c.max_stmts = 18;
+    c.max_loop_iterations = 4;
+    c.max_cycles = 3;
+    c
+}
+
+fn max_reps() -> u32 {
+    match std::env::var("VERIF_TIER").as_deref() {
+        Ok("thorough") => 200,
+        _ => 100,
+    }
+}
+
+pub fn materialize(mut c: Case) -> Case {
+    let g = generate(&c.prog_tape, &c.trace_tape, &gen_config());
+    let mut r = Reader::new(&c.script_tape);
+    let racy = c.mode == "racy";
+    let cfg = TaskCfg::generate(&mut r, !g.program.globals.is_empty(), if racy { 6 } else { 2 });
+    if racy {
+        c.racy = Some(RacyScript::generate(&mut r, max_reps()));
+    } else {
+        c.lock = Some(LockScript::generate(&mut r));
+    }
+    if let Ok((decl, _)) = world::wrap_program(&g.program, &g.trace, &cfg) {
+        c.source = world::wrapped_source(&decl, &cfg).0;
+    }
+    c.program = Some(g.program);
+    c.trace = Some(g.trace);
+    c.cfg = Some(cfg);
+    c
+}
+
+/// Like `tape_strategy`, with a minimum length: a short program tape is used up by the
+/// FUNCTIONs / FUNCTION_BLOCKs and leaves a one-statement Main that never calls them.
+fn long_tape(min_len: usize, max_len: usize) -> impl Strategy<Value = Tape> {
+    let word = prop_oneof![
+        3 => any::<u32>(),
+        1 => (0u32..16).prop_map(|v| v << 28),
+        1 => Just(0u32),
+        1 => Just(u32::MAX),
+    ];
+    proptest::collection::vec(word, min_len..max_len).prop_map(|data| Tape { data })
+}
+
+pub fn case_strategy(mode: &'static str) -> impl Strategy<Value = Case> {
+    (long_tape(300, 900), tape_strategy(40), long_tape(40, 400)).prop_map(move |(p, t, s)| {
+        materialize(Case {
+            prog_tape: p,
+            trace_tape: t,
+            script_tape: s,
+            mode: mode.to_string(),
+            program: None,
+            trace: None,
+            cfg: None,
+            lock: None,
+            racy: None,
+            source: String::new(),
+            replay: false,
+        })
+    })
+}
+
+static INTERNAL: Mutex<Vec<String>> = Mutex::new(Vec::new());
+static SINGLE_WEDGES: Mutex<Vec<String>> = Mutex::new(Vec::new());
+static RAN: AtomicU64 = AtomicU64::new(0);
+static REJECTED: AtomicU64 = AtomicU64::new(0);
+static REF_DISAGREES: AtomicU64 = AtomicU64::new(0);
+
+fn parts(case: &Case) -> Case {
+    if case.program.is_some() && case.cfg.is_some() && (case.lock.is_some() || case.racy.is_some())
+    {
+        case.clone()
+    } else {
+        materialize(case.clone())
+    }
+}
+
+/// Elementary variables a user write may target: (instance name | "", variable, type).
+fn write_targets(w: &World) -> Vec<(String, String, Ty)> {
+    let mut out = Vec::new();
+    for (inst, pname) in &w.decl.instances {
+        if let Some(p) = w.decl.pou(pname) {
+            for v in &p.vars {
+                if v.role == Role::Data
+                    && !v.constant
+                    && v.kind == VarKind::Local
+                    && matches!(v.ty, Ty::Elem(_) | Ty::Enum(_))
+                {
+                    out.push((inst.clone(), v.name.clone(), v.ty.clone()));
+                }
+            }
+        }
+    }
+    for g in &w.decl.globals {
+        if matches!(g.ty, Ty::Elem(_) | Ty::Enum(_)) && !g.constant {
+            out.push((String::new(), g.name.clone(), g.ty.clone()));
+        }
+    }
+    out
+}
+
+fn write_value(w: &World, ty: &Ty, word: u32) -> Val {
+    let k = (word >> 8) as usize;
+    match ty {
+        Ty::Elem(Elem::Bool) => Val::Bool(word & 1 == 1),
+        Ty::Elem(Elem::Real) => Val::real([0.0f32, 1.0, -2.5, 100.0, 0.5][k % 5]),
+        Ty::Elem(Elem::LReal) => Val::lreal([0.0f64, 1.0, -2.5, 100.0, 0.5][k % 5]),
+        Ty::Elem(Elem::Time) => Val::Time([0i64, 1_000_000, 5_000_000_000, -1][k % 4]),
+        Ty::Elem(e) => {
+            let (lo, hi) = e.int_range();
+            let v = [0i128, 1, 2, -1, 5, 7, hi, lo, 100, -3][k % 10];
+            Val::Int(*e, v.max(lo).min(hi))
+        }
+        Ty::Enum(name) => {
+            let n = match w.decl.type_decl(name) {
+                Some(TypeDecl::Enum { variants, .. }) => variants.len().max(1),
+                _ => 1,
+            };
+            Val::Enum(name.clone(), (k % n) as u32)
+        }
+        _ => Val::Bool(false),
+    }
+}
+
+struct Plan {
+    world: Box<World>,
+    resolved: driver::ResolvedLock,
+    writes: BTreeMap<usize, UserWrite>,
+}
+
+enum Planned {
+    Ready(Plan),
+    Skip(String),
+    Internal(String),
+}
+
+/// Build the world of a lock-step case. User writes change the baseline: a write issued at
+/// a stop in cycle k is an input write before cycle k+1 of the undebugged run. The stop a
+/// reaction answers is found by running the stop model alone over the script (positions up to
+/// the end of cycle k do not depend on the write), one write at a time.
+fn plan_lock(prog: &Program, trace: &Trace, cfg: &TaskCfg, script: &LockScript) -> Planned {
+    let first = match world::prepare(prog, trace, cfg, &[]) {
+        Prep::Ready(w) => w,
+        Prep::Skip(l) => return Planned::Skip(l),
+        Prep::Internal(m) => return Planned::Internal(m),
+    };
+    let resolved = driver::resolve_lock(&first, script);
+    if script.reactions.iter().all(|r| r.write.is_none()) {
+        return Planned::Ready(Plan {
+            world: first,
+            resolved,
+            writes: BTreeMap::new(),
+        });
+    }
+    let targets = write_targets(&first);
+    if targets.is_empty() {
+        return Planned::Ready(Plan {
+            world: first,
+            resolved,
+            writes: BTreeMap::new(),
+        });
+    }
+    let mut world = first;
+    let mut writes: BTreeMap<usize, UserWrite> = BTreeMap::new();
+    let mut extra: Vec<(usize, InputWrite)> = Vec::new();
+    for _round in 0..4 {
+        // model-only run of the script
+        let mut model = driver::Model::new(&world);
+        let pause = script
+            .pause
+            .map(|sel| driver::sel_thread(&world, sel, None));
+        model.start(
+            driver::bp_ranges(&world, &resolved.bps),
+            pause,
+            script.early_step.is_some(),
+        );
+        let mut added = false;
+        for (k, r) in script.reactions.iter().enumerate() {
+            let Some(Some(q)) = model.expected_position() else {
+                break;
+            };
+            let thread = Some(world.pos[q].thread);
+            let p = match model.observe_position(q) {
+                Some(p) => p,
+                None => break,
+            };
+            match &r.bps {
+                BpEdit::Keep => {}
+                BpEdit::Set(_) => {
+                    model.set_breakpoints(driver::bp_ranges(&world, &resolved.reaction_bps[k]))
+                }
+                BpEdit::Clear => model.set_breakpoints(Vec::new()),
+            }
+            if let Some(ws) = r.write {
+                if !writes.contains_key(&k) && writes.len() < 3 {
+                    let (inst, var, ty) =
+                        targets[(ws.target as usize * targets.len()) >> 16].clone();
+                    let value = write_value(&world, &ty, ws.value);
+                    writes.insert(
+                        k,
+                        UserWrite {
+                            instance: inst.clone(),
+                            var: var.clone(),
+                            value: value.clone(),
+                        },
+                    );
+                    let c = world.pos[p].cycle + 1;
+                    if c < world.inputs.len() {
+                        extra.push((
+                            c,
+                            InputWrite {
+                                instance: inst,
+                                var,
+                                value,
+                            },
+                        ));
+                        added = true;
+                        break;
+                    }
+                }
+            }
+            let t = r
+                .resume
+                .sel()
+                .and_then(|s| driver::sel_thread(&world, s, thread));
+            model.resume(r.resume, t, thread);
+        }
+        if !added {
+            break;
+        }
+        world = match world::prepare(prog, trace, cfg, &extra) {
+            Prep::Ready(w) => w,
+            Prep::Skip(l) => return Planned::Skip(format!("with_user_write:{l}")),
+            Prep::Internal(m) => return Planned::Internal(m),
+        };
+    }
+    Planned::Ready(Plan {
+        world,
+        resolved,
+        writes,
+    })
+}
+
+fn confirmed_wedge(case: &Case, first: &str, second: &str) -> ! {
+    // "No command sequence deadlocks the cycle": the same script met the no-progress
+    // criterion (driver::await_event) twice in a row. The blocked cycle threads cannot be killed, so the worker reports and
+    // exits; the parent attributes the death to the journalled case (VIOLATION).
+    let text = format!(
+        "C17 confirmed wedge (twice in a row for one script)\n first attempt: {first}\n second attempt: {second}\n--- source\n{}",
+        case.source
+    );
+    eprintln!("{text}");
+    let dir = crate::engine::verif_root().join("out").join("C17");
+    let _ = std::fs::create_dir_all(&dir);
+    let _ = std::fs::write(
+        dir.join(format!("wedge-{}.txt", std::process::id())),
+        &text,
+    );
+    std::process::exit(5);
+}
+
+fn world_labels(w: &World, probe: &mut Probe) {
+    probe.label(format!("instances={}", w.cfg.ninst));
+    probe.label(format!("tasks={}", w.cfg.ntasks));
+    probe.label(format!("threads={}", w.threads.len()));
+    if !w.cfg.wrap {
+        probe.label("no_configuration");
+    }
+    probe.label(format!("max_call_depth={}", w.max_depth.min(3)));
+    if w.faulted {
+        probe.label("program_faults");
+    }
+    probe.label(format!(
+        "trace_positions={}",
+        match w.pos.len() {
+            0 => "0",
+            1..=20 => "1-20",
+            21..=200 => "21-200",
+            _ => ">200",
+        }
+    ));
+}
+
+fn skip_label(l: &str, probe: &mut Probe) {
+    if l.starts_with("rejected:") || l.contains("rejected:") {
+        REJECTED.fetch_add(1, Ordering::Relaxed);
+    }
+    if l.contains("reference_disagrees") {
+        REF_DISAGREES.fetch_add(1, Ordering::Relaxed);
+    }
+    probe.label(format!("skipped:{l}"));
+}
+
+fn check_lock(case: &Case, probe: &mut Probe) -> Result<(), String> {
+    let c = parts(case);
+    let (prog, trace, cfg) = (
+        c.program.as_ref().unwrap(),
+        c.trace.as_ref().unwrap(),
+        c.cfg.as_ref().unwrap(),
+    );
+    let Some(script) = c.lock.as_ref() else {
+        return Ok(());
+    };
+    let plan = match plan_lock(prog, trace, cfg, script) {
+        Planned::Ready(p) => p,
+        Planned::Skip(l) => {
+            skip_label(&l, probe);
+            return Ok(());
+        }
+        Planned::Internal(m) => {
+            INTERNAL.lock().unwrap().push(m);
+            probe.label("internal_error");
+            return Ok(());
+        }
+    };
+    RAN.fetch_add(1, Ordering::Relaxed);
+    let w = &plan.world;
+    let fail = |e: String| -> String { format!("[lock-step] {e}\n--- source\n{}", w.source) };
+    let mut first_wedge: Option<String> = None;
+    for _attempt in 0..2 {
+        match driver::run_lockstep(w, script, &plan.resolved, &plan.writes).map_err(&fail)? {
+            Outcome::Done(s) => {
+                if let Some(fw) = first_wedge {
+                    SINGLE_WEDGES.lock().unwrap().push(fw);
+                    probe.label("single_wedge");
+                }
+                world_labels(w, probe);
+                for l in s.labels {
+                    probe.label(l);
+                }
+                if s.nontrivial {
+                    let mut key = w.source.as_bytes().to_vec();
+                    key.extend_from_slice(
+                        serde_json::to_string(script).unwrap_or_default().as_bytes(),
+                    );
+                    probe.nontrivial(&key);
+                    if s.stops >= 4 {
+                        probe.sample(json!({
+                            "driver": "lock-step",
+                            "source": w.source,
+                            "script": script,
+                            "stops": s.stops,
+                            "trace_positions": w.pos.len(),
+                        }));
+                    }
+                }
+                return Ok(());
+            }
+            Outcome::Internal(m) => {
+                INTERNAL.lock().unwrap().push(m);
+                probe.label("internal_error");
+                return Ok(());
+            }
+            Outcome::Wedge(text) => match first_wedge.take() {
+                None => first_wedge = Some(text),
+                Some(f) => confirmed_wedge(&c, &f, &text),
+            },
+        }
+    }
+    if let Some(f) = first_wedge {
+        // second attempt wedged as well is handled above; here: loop ended after one wedge
+        // and one ... cannot happen, but never lose the information
+        SINGLE_WEDGES.lock().unwrap().push(f);
+    }
+    Ok(())
+}
+
+static RACY_FAILED: AtomicBool = AtomicBool::new(false);
+static RACY_SHRINK_EVALS: AtomicU64 = AtomicU64::new(0);
+
+/// A racy evaluation costs 50-200 runs, and proptest allows thousands of shrink steps: once a
+/// generated racy case has failed, at most 150 further candidates are evaluated (with at most
+/// 60 repetitions each); an untried candidate counts as passing, so the reported case is
+/// always one that failed. Replay files (`replay: true`) are never limited.
+fn check_racy(case: &Case, probe: &mut Probe) -> Result<(), String> {
+    let shrinking = !case.replay && RACY_FAILED.load(Ordering::SeqCst);
+    if shrinking && RACY_SHRINK_EVALS.fetch_add(1, Ordering::SeqCst) >= 150 {
+        return Ok(());
+    }
+    let r = check_racy_inner(case, probe, if shrinking { 60 } else { u32::MAX });
+    if r.is_err() && !case.replay {
+        RACY_FAILED.store(true, Ordering::SeqCst);
+    }
+    r
+}
+
+fn check_racy_inner(case: &Case, probe: &mut Probe, max_reps: u32) -> Result<(), String> {
+    let c = parts(case);
+    let (prog, trace, cfg) = (
+        c.program.as_ref().unwrap(),
+        c.trace.as_ref().unwrap(),
+        c.cfg.as_ref().unwrap(),
+    );
+    let Some(script) = c.racy.as_ref() else {
+        return Ok(());
+    };
+    let w = match world::prepare(prog, trace, cfg, &[]) {
+        Prep::Ready(w) => w,
+        Prep::Skip(l) => {
+            skip_label(&l, probe);
+            return Ok(());
+        }
+        Prep::Internal(m) => {
+            INTERNAL.lock().unwrap().push(m);
+            probe.label("internal_error");
+            return Ok(());
+        }
+    };
+    RAN.fetch_add(1, Ordering::Relaxed);
+    let mut stats = RacyStats::new();
+    let mut consecutive_wedge: Option<String> = None;
+    let mut both_kinds = false;
+    let mut rep = 0;
+    let reps = script.reps.min(max_reps);
+    while rep < reps {
+        let before = (stats.pause_stops, stats.breakpoint_stops);
+        let r = driver::run_racy_once(&w, script, &mut stats).map_err(|e| {
+            format!(
+                "[racy, repetition {} of {}] {e}\n--- source\n{}",
+                rep + 1,
+                script.reps,
+                w.source
+            )
+        })?;
+        match r {
+            RacyOutcome::Done => {
+                if let Some(fw) = consecutive_wedge.take() {
+                    SINGLE_WEDGES.lock().unwrap().push(fw);
+                    probe.label("single_wedge");
+                }
+                if stats.pause_stops > before.0 && stats.breakpoint_stops > before.1 {
+                    both_kinds = true;
+                }
+            }
+            RacyOutcome::Internal(m) => {
+                INTERNAL.lock().unwrap().push(m);
+                probe.label("internal_error");
+                return Ok(());
+            }
+            RacyOutcome::Wedge(text) => match consecutive_wedge.take() {
+                None => consecutive_wedge = Some(text),
+                Some(f) => confirmed_wedge(&c, &f, &text),
+            },
+        }
+        rep += 1;
+    }
+    if let Some(fw) = consecutive_wedge.take() {
+        SINGLE_WEDGES.lock().unwrap().push(fw);
+        probe.label("single_wedge");
+    }
+    world_labels(&w, probe);
+    probe.label(if script.racer_resumes() {
+        "racy:racer_resumes"
+    } else {
+        "racy:racer_only_pauses"
+    });
+    let bucket = |n: u64| match n {
+        0 => "0",
+        1..=9 => "1-9",
+        10..=99 => "10-99",
+        _ => ">=100",
+    };
+    probe.label(format!("racy:stops={}", bucket(stats.stops)));
+    probe.label(format!("racy:pause_stops={}", bucket(stats.pause_stops)));
+    probe.label(format!(
+        "racy:pause_overtook_resume={}",
+        bucket(stats.pause_at_same_position)
+    ));
+    probe.label(format!(
+        "racy:racer_commands_during_execution={}%",
+        if stats.racer_total == 0 {
+            0
+        } else {
+            (stats.racer_landed * 100 / stats.racer_total) / 25 * 25
+        }
+    ));
+    if both_kinds || stats.pause_at_same_position > 0 {
+        let mut key = w.source.as_bytes().to_vec();
+        key.extend_from_slice(serde_json::to_string(script).unwrap_or_default().as_bytes());
+        probe.nontrivial(&key);
+        probe.sample(json!({
+            "driver": "racy",
+            "source": w.source,
+            "script": script,
+            "repetitions": script.reps,
+            "stops": stats.stops,
+            "pause_stops": stats.pause_stops,
+            "pause_overtook_resume": stats.pause_at_same_position,
+            "racer_commands_during_execution": stats.racer_landed,
+            "racer_commands": stats.racer_total,
+        }));
+    }
+    Ok(())
+}
+
+fn describe_script(c: &Case) -> String {
+    match (&c.lock, &c.racy) {
+        (Some(l), _) => {
+            let cmds: Vec<String> = l
+                .reactions
+                .iter()
+                .map(|r| {
+                    format!(
+                        "{}{}{}",
+                        match &r.bps {
+                            BpEdit::Keep => "",
+                            BpEdit::Set(_) => "setbp+",
+                            BpEdit::Clear => "clearbp+",
+                        },
+                        if r.write.is_some() { "write+" } else { "" },
+                        match r.resume {
+                            Resume::Continue => "C".to_string(),
+                            Resume::StepIn(s) => format!("in({s:?})"),
+                            Resume::StepOver(s) => format!("over({s:?})"),
+                            Resume::StepOut(s) => format!("out({s:?})"),
+                        }
+                    )
+                })
+                .collect();
+            format!(
+                "lock: bps {:?} pause {:?} early {:?} reactions [{}]",
+                l.bps,
+                l.pause,
+                l.early_step,
+                cmds.join(" ")
+            )
+        }
+        (_, Some(r)) => format!("racy: {r:?}"),
+        _ => String::new(),
+    }
+}
+
 /// Helper subcommands (child processes of this check); None = not mine.
-pub fn helper(_args: &[String]) -> Option<i32> {
-    None
+pub fn helper(args: &[String]) -> Option<i32> {
+    match args.first().map(|s| s.as_str()) {
+        Some("c17-gen") => {
+            // tpv c17-gen <seed> [n] [lock|racy] [quiet]: generate cases, run them, print verdicts
+            crate::engine::install_quiet_panic_hook();
+            let seed: u64 = args.get(1).and_then(|s| s.parse().ok()).unwrap_or(1);
+            let n: usize = args.get(2).and_then(|s| s.parse().ok()).unwrap_or(1);
+            let mode: &'static str = if args.get(3).map(|s| s.as_str()) == Some("racy") {
+                "racy"
+            } else {
+                "lock"
+            };
+            let quiet = args.get(4).is_some();
+            let mut runner = proptest::test_runner::TestRunner::new_with_rng(
+                proptest::test_runner::Config::default(),
+                proptest::test_runner::TestRng::from_seed(
+                    proptest::test_runner::RngAlgorithm::ChaCha,
+                    &{
+                        let mut s = [0u8; 32];
+                        s[..8].copy_from_slice(&seed.to_le_bytes());
+                        s
+                    },
+                ),
+            );
+            let strat = case_strategy(mode);
+            let mut hist: BTreeMap<String, u64> = BTreeMap::new();
+            let started = std::time::Instant::now();
+            for i in 0..n {
+                let c = strat.new_tree(&mut runner).ok()?.current();
+                let mut probe = Probe::default();
+                let t0 = std::time::Instant::now();
+                let r = if mode == "racy" {
+                    check_racy(&c, &mut probe)
+                } else {
+                    check_lock(&c, &mut probe)
+                };
+                if !quiet {
+                    println!("(* ---- case {i} ---- *)\n{}", c.source);
+                    println!("(* cfg {:?} *)", c.cfg);
+                    println!("(* {} *)", describe_script(&c));
+                }
+                match r {
+                    Ok(()) => {
+                        if !quiet {
+                            println!(
+                                "(* verdict: ok in {:?}; labels {:?} *)",
+                                t0.elapsed(),
+                                probe.labels
+                            );
+                        }
+                    }
+                    Err(e) => {
+                        println!("(* case {i} verdict: FAIL\n{e}\n*)");
+                        println!("(* {} *)", describe_script(&c));
+                        if let Ok(dir) = std::env::var("C17_DEBUG_DIR") {
+                            let _ = std::fs::write(
+                                format!("{dir}/fail-{seed}-{i}.json"),
+                                serde_json::to_string_pretty(&json!({"property":"C17","search": if mode=="racy" {"racy"} else {"lockstep"},"expect":"pass","message": e.lines().next().unwrap_or(""),"case": c})).unwrap(),
+                            );
+                        }
+                    }
+                }
+                for l in probe.labels {
+                    *hist.entry(l).or_default() += 1;
+                }
+                if probe.nontrivial.is_some() {
+                    *hist.entry("NONTRIVIAL".into()).or_default() += 1;
+                }
+            }
+            println!("(* {n} cases in {:?} *)", started.elapsed());
+            for (k, v) in hist {
+                println!("(* {v:6} {k} *)");
+            }
+            for m in INTERNAL.lock().unwrap().iter() {
+                println!("(* INTERNAL: {} *)", m.lines().take(4).collect::<Vec<_>>().join(" | "));
+            }
+            for m in SINGLE_WEDGES.lock().unwrap().iter() {
+                println!("(* SINGLE WEDGE: {m} *)");
+            }
+            Some(0)
+        }
+        _ => None,
+    }
 }
 
 fn run(ctx: &mut RunCtx) {
-    ctx.inconclusive("check not built yet");
+    let tier = ctx.tier;
+    std::env::set_var("VERIF_TIER", tier.name());
+    ctx.search(
+        "lockstep",
+        case_strategy("lock"),
+        tier.pick(3_000, 60_000),
+        check_lock,
+    );
+    ctx.search("racy", case_strategy("racy"), tier.pick(200, 3_000), check_racy);
+
+    let internal = INTERNAL.lock().unwrap().clone();
+    if !internal.is_empty() {
+        ctx.inconclusive(format!(
+            "{} case(s) hit an inconsistency inside generator/reference/harness (not a verdict about the runtime); first: {}",
+            internal.len(),
+            internal[0].lines().take(3).collect::<Vec<_>>().join(" | ")
+        ));
+    }
+    let wedges = SINGLE_WEDGES.lock().unwrap().clone();
+    if !wedges.is_empty() {
+        ctx.inconclusive(format!(
+            "{} script(s) met the no-progress criterion once and passed when repeated (inconclusive, not a violation); first: {}",
+            wedges.len(),
+            wedges[0].lines().take(3).collect::<Vec<_>>().join(" | ")
+        ));
+    }
+    let ran = RAN.load(Ordering::Relaxed);
+    let rejected = REJECTED.load(Ordering::Relaxed);
+    let disagrees = REF_DISAGREES.load(Ordering::Relaxed);
+    if ctx.only_replay.is_none() && rejected * 50 > (ran + rejected).max(1) {
+        ctx.inconclusive(format!(
+            "{rejected} of {} generated programs were rejected by the compiler (> 2 %)",
+            ran + rejected
+        ));
+    }
+    if ctx.only_replay.is_none() && disagrees * 20 > (ran + disagrees).max(1) {
+        ctx.inconclusive(format!(
+            "{disagrees} of {} cases were not judged because the reference evaluator and the undebugged runtime disagree (> 5 %)",
+            ran + disagrees
+        ));
+    }
+    if disagrees > 0 {
+        ctx.note(format!(
+            "{disagrees} case(s) not judged: reference evaluator and undebugged runtime disagree (C02's business)"
+        ));
+    }
 }
